@@ -5,6 +5,7 @@ import (
 
 	fail "github.com/textwire/textwire/v2/fail"
 	token "github.com/textwire/textwire/v2/token"
+	"github.com/textwire/textwire/v2/utils"
 )
 
 type Program struct {
@@ -125,7 +126,7 @@ func (p *Program) HasUseStmt() bool {
 }
 
 func (p *Program) checkUndefinedInsert(inserts map[string]*InsertStmt) *fail.Error {
-	for name := range inserts {
+	for _, name := range utils.SortedKeys(inserts) {
 		if _, ok := p.Reserves[name]; ok {
 			continue
 		}
